@@ -68,8 +68,32 @@ Top1(sname) ==
   LayoutD(<<GoodSig("o1")>>, 1000, <<"k1", "k2", "k3">>,
           <<StepD(sname, <<"k1">>, 1, <<Simple("ALLOW", <<"*">>)>>, <<Simple("ALLOW", <<"*">>)>>)>>, << >>)
 
-MCInit ==
-  /\ \E sname \in SNames, n \in 0..3, state \in States, deepok \in BOOLEAN :
+\* two functionaries delegate the same step with ONE sub-layout (the same content, signed by both, filed
+\* under each name): each copy must pass against its OWN sub-directory, whatever the state of the other's
+CoStates == {"valid", "empty", "unauth", "badsig"}
+CoTop(thr) ==
+  LayoutD(<<GoodSig("o1")>>, 1000, <<"k1", "k2", "k3">>,
+          <<StepD("s1", <<"k1", "k2">>, thr, <<Simple("ALLOW", <<"*">>)>>, <<Simple("ALLOW", <<"*">>)>>)>>, << >>)
+CoSub(cosigned, k) ==
+  LayoutD(IF cosigned THEN <<GoodSig("k1"), GoodSig("k2")>> ELSE <<GoodSig(k)>>, 1000, <<"k3", "k2">>,
+          InnerSteps(1, "valid"), << >>)
+CoInner(k, st) ==
+  LET dir == <<"s1." \o k>> IN
+  CASE st = "valid"  -> <<Entry(dir, "in1", "k3", InnerLink(1, "k3", TRUE))>>
+    [] st = "empty"  -> << >>
+    [] st = "unauth" -> <<Entry(dir, "in1", "k2", InnerLink(1, "k2", TRUE))>>
+    [] st = "badsig" -> <<Entry(dir, "in1", "k3", InnerLink(1, "k3", FALSE))>>
+CoFiled(thr, cosigned, st1, st2) ==
+  Build(CoTop(thr), Own("o1"),
+        <<Entry(<< >>, "s1", "k1", CoSub(cosigned, "k1")), Entry(<< >>, "s1", "k2", CoSub(cosigned, "k2"))>>
+        \o CoInner("k1", st1) \o CoInner("k2", st2), {})
+
+CoInit ==
+  \E thr \in {1, 2}, cosigned \in BOOLEAN, st1 \in CoStates, st2 \in CoStates :
+     ~Deep /\ scn = CoFiled(thr, cosigned, st1, st2)
+
+OneInit ==
+  \E sname \in SNames, n \in 0..3, state \in States, deepok \in BOOLEAN :
        /\ (n = 0 => state \in {"valid", "expired", "othersigner", "nosig"} /\ ~Deep)   \* a sub-layout without steps: empty summary
        /\ (~Deep => deepok)
        /\ (state = "siblingdir" => sname = "s1.v2")
@@ -78,7 +102,8 @@ MCInit ==
                       \o (IF state = "innermissing" /\ n > 0 THEN SubSeq(InnerEntries(sname, n, state, deepok), 1, n - 1)
                           ELSE InnerEntries(sname, n, state, deepok))
                       \o DeepEntries(sname, state), {})
-  /\ VInitRest
+
+MCInit == (CoInit \/ OneInit) /\ VInitRest
 
 MCSpec == MCInit /\ [][VNext]_vars
 Emit == EmitAs("C15")
